@@ -1112,6 +1112,29 @@ package router
 //@     modifies *
 //@     invariant s != nil && routerReady(s.r) && udpOK(s) && c != nil && len(b) == 2048 && len(oob) == 512
 
+// udpServer.startThreadLinux (batched read loop, recvmmsg): of the 16 message slots only the first n - those the
+// last ReadBatch filled - are handled, each once, as exactly the bytes and control bytes it received.
+//@ func (s *udpServer) startThreadLinux(c *net.UDPConn) (err error)
+//@   props C01 C03
+//@   requires s != nil && routerReady(s.r) && udpOK(s) && c != nil
+//@   noterm
+//@   ghost gN int = 0
+//@   assumecall LocalAddr: typeIs(ret0, *net.UDPAddr) && ptrOf(ret0, net.UDPAddr) != nil
+//@   aftercall ReadBatch: gN = ret0
+//@   modifies *
+//@   callsite handleMsg: [C03:only-messages-of-this-batch] arg0 == s && 0 <= i && i < gN && sameSlice(arg1, ms[i].Buffers[0], 0, ms[i].N) && sameSlice(arg2, ms[i].OOB, 0, ms[i].NN) && arg4 == listenerAddr
+//@   loop 1:
+//@     invariant len(ms) == 16
+//@     invariant forall(k, 0, rangeindex + 1, len(ms[k].Buffers) == 1 && allocated(ms[k].Buffers))
+//@     invariant forall(k, 0, rangeindex + 1, len(ms[k].Buffers[0]) == 2048)
+//@     invariant forall(k, 0, rangeindex + 1, len(ms[k].OOB) == 512)
+//@   loop 2:
+//@     modifies *
+//@     invariant s != nil && routerReady(s.r) && udpOK(s) && c != nil && v6c != nil && len(ms) == 16 && forall(k, 0, 16, len(ms[k].Buffers) == 1 && len(ms[k].Buffers[0]) == 2048 && len(ms[k].OOB) == 512)
+//@   loop 3:
+//@     modifies field(limiter.e), field(time.Time)
+//@     invariant 0 <= gN && gN <= 16
+
 // tcpServer.run (accept loop, TCP and DoT): every accepted connection is charged - 15 for TLS, 3 for plain TCP -
 // to its remote address; a refused connection is closed and never handled.
 //@ func (s *tcpServer) run() (err error)
